@@ -16,10 +16,11 @@ import (
 )
 
 type witness struct {
-	Family  string   `json:"family"`
-	WithDir bool     `json:"with_dir"`
-	Cache   bool     `json:"cache"`
-	History []string `json:"history"`
+	Family   string   `json:"family"`
+	WithDir  bool     `json:"with_dir"`
+	WithArgs bool     `json:"with_args,omitempty"`
+	Cache    bool     `json:"cache"`
+	History  []string `json:"history"`
 }
 
 // memory is the oracle bookkeeping of a lineage.
@@ -67,11 +68,14 @@ func main() {
 		runs = []run{
 			{hist.TestFam{WithDir: true, WithBin: true, WithNoop: true, WithRm: true}, 2, false},
 			{hist.TestFam{WithDir: true, WithBin: true, WithNoop: true, WithRm: true}, 2, true},
+			{hist.TestFam{WithArgs: true, WithNoop: true}, 2, false},
 		}
 	} else {
 		runs = []run{
 			{hist.TestFam{WithDir: true, WithBin: true, WithNoop: true, WithRm: true}, 4, false},
 			{hist.TestFam{WithDir: true, WithBin: true, WithNoop: true, WithRm: true}, 4, true},
+			{hist.TestFam{WithArgs: true, WithNoop: true, WithRm: true}, 4, false},
+			{hist.TestFam{WithArgs: true, WithNoop: true, WithRm: true}, 3, true},
 		}
 	}
 	if r.Replay != "" {
@@ -104,7 +108,7 @@ func main() {
 			total.EditKindsHit[k] += v
 		}
 		for _, s := range st.Samples {
-			samples = append(samples, witness{Family: rn.fam.Name(), WithDir: rn.fam.WithDir, Cache: rn.cache, History: s})
+			samples = append(samples, witness{Family: rn.fam.Name(), WithDir: rn.fam.WithDir, WithArgs: rn.fam.WithArgs, Cache: rn.cache, History: s})
 		}
 		fmt.Fprintf(os.Stderr, "C11 %s cache=%v depth=%d: states=%d transitions=%d clean-runs=%d complete=%v\n", rn.fam.Name(), rn.cache, st.DepthDone, st.States, st.Transitions, e.Clean, st.Complete)
 		os.RemoveAll(e.Root)
@@ -144,7 +148,7 @@ func hashMem(m memory) string {
 func makeVisit(r *lib.Run, e *hist.Engine, rn run) hist.Visit {
 	return e.Confirmed(makeJudge(e, rn), rn.config(), r.HasViolation,
 		func(f hist.Finding, history []string) {
-			r.Violate(f.Class, witness{Family: rn.fam.Name(), WithDir: rn.fam.WithDir, Cache: rn.cache, History: history}, f.Detail)
+			r.Violate(f.Class, witness{Family: rn.fam.Name(), WithDir: rn.fam.WithDir, WithArgs: rn.fam.WithArgs, Cache: rn.cache, History: history}, f.Detail)
 		},
 		func(msg string) { lib.Fatal("HARNESS-NONDETERMINISM: %s", msg) })
 }
@@ -212,7 +216,8 @@ func makeJudge(e *hist.Engine, rn run) hist.Judge {
 					violate(fmt.Sprintf("verdict-differs-from-fresh-run:edit=%s:incremental=%s:%s", ed.Kind, verdict, how), detail)
 				}
 			}
-		case executed == 0 && !mem.Passed[sig]:
+		case executed == 0 && !mem.Passed[sig] && !mem.Passed[strings.Replace(sig, "|test-arguments=skip", "|test-arguments=", 1)]:
+			// (an invocation restricted by test arguments may reuse a passing run of the whole test; the converse is not allowed)
 			reused = true
 			if !mem.Reused {
 				violate("result-reused-without-passing-run-for-current-inputs:verdict-agrees:inputs-differing-from-nearest-executed-passing-run="+hist.NearestDiff(sig, mem.Passed), detail+"\nno executed passing run with runtime signature "+sig+" exists in this lineage")
@@ -228,6 +233,9 @@ func makeJudge(e *hist.Engine, rn run) hist.Judge {
 
 func replay(r *lib.Run, plz, root string, w witness) {
 	rn := run{fam: hist.TestFam{WithDir: w.WithDir, WithBin: true, WithNoop: true, WithRm: true}, cache: w.Cache}
+	if w.WithArgs {
+		rn.fam = hist.TestFam{WithArgs: true, WithNoop: true, WithRm: true}
+	}
 	e := hist.NewEngine(plz, filepath.Join(root, "replay"), rn.fam)
 	e.CacheOn = w.Cache
 	visit := makeVisit(r, e, rn)
